@@ -149,22 +149,8 @@ func (c *callEngine) addFrame(builder wasmdebug.ErrorBuilder, addr uintptr) (def
 	cm := eng.compiledModuleOfAddr(addr)
 	if cm == nil {
 		// This case, the module might have been closed and deleted from the engine.
-		// We fall back to searching the imported modules that can be referenced from this callEngine.
-
-		// First, we check itself.
-		if checkAddrInBytes(addr, c.parent.parent.executable) {
-			cm = c.parent.parent
-		} else {
-			// Otherwise, search all imported modules. TODO: maybe recursive, but not sure it's useful in practice.
-			p := c.parent
-			for i := range p.importedFunctions {
-				candidate := p.importedFunctions[i].me.parent
-				if checkAddrInBytes(addr, candidate.executable) {
-					cm = candidate
-					break
-				}
-			}
-		}
+		// We fall back to searching the modules that can be reached from this callEngine.
+		cm = c.parent.reachableCompiledModuleOfAddr(addr)
 	}
 
 	if cm != nil {
@@ -611,7 +597,7 @@ func (si *stackIterator) reset(c *callEngine, onHostCall bool) {
 
 // compiledModuleOfAddr returns the compiled module whose executable contains addr. A module that was closed while
 // its instances are still in use is no longer known to the engine, so fall back to the modules reachable from
-// the call engine: its own and, transitively, the ones it imports functions from.
+// the call engine: its own and, transitively, the ones it imports functions from or shares a table with.
 func (si *stackIterator) compiledModuleOfAddr(addr uintptr) *compiledModule {
 	if cm := si.eng.compiledModuleOfAddr(addr); cm != nil {
 		return cm
@@ -620,18 +606,34 @@ func (si *stackIterator) compiledModuleOfAddr(addr uintptr) *compiledModule {
 }
 
 func (m *moduleEngine) reachableCompiledModuleOfAddr(addr uintptr) *compiledModule {
+	return m.searchCompiledModuleOfAddr(addr, map[*moduleEngine]struct{}{})
+}
+
+func (m *moduleEngine) searchCompiledModuleOfAddr(addr uintptr, seen map[*moduleEngine]struct{}) *compiledModule {
+	if _, ok := seen[m]; ok {
+		return nil
+	}
+	seen[m] = struct{}{}
 	if cm := m.parent; len(cm.executable) > 0 && checkAddrInBytes(addr, cm.executable) {
 		return cm
 	}
-	var prev *moduleEngine
 	for i := range m.importedFunctions {
-		me := m.importedFunctions[i].me
-		if me == nil || me == prev {
-			continue
+		if me := m.importedFunctions[i].me; me != nil {
+			if cm := me.searchCompiledModuleOfAddr(addr, seen); cm != nil {
+				return cm
+			}
 		}
-		prev = me
-		if cm := me.reachableCompiledModuleOfAddr(addr); cm != nil {
-			return cm
+	}
+	// Functions of other modules are also entered through the tables this module shares with them.
+	if m.module != nil {
+		for _, t := range m.module.Tables {
+			for _, mi := range t.InvolvingModuleInstances() {
+				if me, ok := mi.Engine.(*moduleEngine); ok {
+					if cm := me.searchCompiledModuleOfAddr(addr, seen); cm != nil {
+						return cm
+					}
+				}
+			}
 		}
 	}
 	return nil
